@@ -14,8 +14,17 @@ CFG = {
     "rule": "reference chains of 1..400 (thorough 1500) and 10^5 links, linear and cyclic, against a recursive named type (run in a "
             "256 KiB-stack thread); the C08 small enumeration (self reference, reference to reference); random graphs over <= 4 ids "
             "with arbitrary back edges x random specs with mutually recursive names; n/5 cyclic container graphs whose cycle passes "
-            "through a disjunction-typed edge where an earlier alternative fails one level down; every case is run twice; non-trivial = named "
-            "(recursive) specification or a reference cycle in the graph",
+            "through a disjunction-typed edge where an earlier alternative fails one level down; every case is run twice; "
+            "SEQUENCES of 2..4 check_type calls on ONE TypeCheckContext and one object context (`seq` lines, Driver/C09Seq.lean; "
+            "corpus sequences.case): 6 name families (same name registered with different bodies; allow_indirect / split_disjunct / "
+            "new_replace_typ variants of a registered type; unregistered namesakes; the name itself; anonymous checks; a recursive "
+            "indirect-required type on cyclic graphs; linked dictionaries) x object pools with conforming and non-conforming objects: "
+            "EVERY ordered pair of (check variant, object) steps (quick: prefixes of the pools, 3456 pairs; thorough: all 33897) = the "
+            "same step twice, one check on two objects, namesakes in both orders, failing-then-passing and passing-then-failing; n/4 random "
+            "sequences over the family pools with registrations between the checks + n/4 random sequences over random recursive contexts "
+            "with a shadowed name and fitted objects; every step is also run ALONE on freshly built contexts and must give the same "
+            "verdict and work count; non-trivial = named (recursive) specification or a reference cycle in the graph (sequences: and at "
+            "least two checks)",
     "trusted_base": COMMON_TB + [
         "modelled, not verified: BTreeSet/VecDeque/Rc semantics; machine stack and wall-clock are observed, not modelled",
         "verif hook C08-00 (work-loop iteration counter, thread-local); harness watchdog (worker process, `hang` after 8 s)",
@@ -34,5 +43,8 @@ LEVEL = {
             "(machine_work_bound); the machine is a function (deterministic verdict and step count) and one unit of fuel is one "
             "non-recursive step (constant call depth). The judge compares the REAL iteration counter of check_type with workBound on "
             "every case and the model's counter must equal the real one. The real checker is run twice per case, and on 10^5-link "
-            "chains in a 256 KiB stack (runtime half of the stack claim: observed, not proved).",
+            "chains in a 256 KiB stack (runtime half of the stack claim: observed, not proved). 'The same verdict every time it is run' "
+            "is a theorem for the model (a pure function of context, graph, object, check: machine_deterministic) and is OBSERVED for the "
+            "real code on sequences of checks sharing one context: each step inside a sequence equals the step run alone, equals the "
+            "model, and (inside the fragments F1/F2 and for completeness) the declarative specification.",
 }
